@@ -375,8 +375,14 @@ def check_C18(tier, seed):
             run.violation(run.replay('oracle-%d.txt' % i, '%s\ncase: %s\nimplementation: %s\n(schema: %s)\n' % (msg, l, o, env.text())), False)
     # streaming claim: pack_to_buffer delivers, over however many append calls, exactly the bytes pack writes
     envs = envs_for(rnd, tier, 5, 60, oneof_defaults=True)
-    run_corr_streams(run, ctx, rnd, envs, 30 if tier == 'quick' else 100, st,
-                     [lambda r, e, s, n: stream_pack(r, e, s, n, canon=False)], 'stream', pack_oracle_factory(None))
+    # the streaming claim covers everything the serialisers define, including a required sub-message pointer left NULL
+    # (written as an empty message by all three; protobuf_c_message_check rejects such a message, so C02 / C19 do not use it)
+    casegen.NULL_REQ[0] = 0.2
+    try:
+        run_corr_streams(run, ctx, rnd, envs, 30 if tier == 'quick' else 100, st,
+                         [lambda r, e, s, n: stream_pack(r, e, s, n, canon=False)], 'stream', pack_oracle_factory(None))
+    finally:
+        casegen.NULL_REQ[0] = 0.0
     finish_stats(run, st, 'BUF histories: capacity in {1,2,3,4,7,8,16,100}, lengths aimed at free-1/free/free+1/multi-doubling, '
                           'failure plans (none / k-th / k-th and later / subsets); distinct = distinct case lines; '
                           'every case is run on the C buffer (ASan) and on the extracted model and the observations are diffed; '
@@ -768,6 +774,8 @@ def check_C11(tier, seed):
     envs = envs_for(rnd, tier, 14, 120, big_every=4, oneof_defaults=True)
     # always: schemas whose first message has more than 128 fields (heap-allocated required-fields bitmap)
     envs = [casegen.gen_env(rnd, nmsgs=rnd.randint(1, 3), big=True, wide=True) for _ in range(2 if tier == 'quick' else 8)] + envs
+    # ... and one with 300 fields: required fields at indices beyond 255
+    envs = [casegen.gen_env(rnd, nmsgs=2, big=True, wide=300)] + envs
     per_env = 40 if tier == 'quick' else 120
     tally = {'dropped_expected_fail': 0, 'complete_expected_ok': 0}
     for env in envs:
